@@ -18,7 +18,7 @@
    state per chunk of items and walks each chunk (parallel, linear).        *)
 EXTENDS Policy, Json, SequencesExt
 
-CONSTANTS Fam,        \* "leaf", "uc", "d1", "d2", "d3" or "all"
+CONSTANTS Fam,        \* "leaf", "uc", "d1", "d2", "d3", "all", or "num" (parameters at the extremes of their machine types)
           Wide,       \* 0: narrow child pools, 1: wide child pools
           MaxSigs,    \* longest signature sequence
           MaxPres,    \* longest preimage sequence
@@ -67,7 +67,37 @@ Sub3 == {Thresh(1, <<Thresh(1, <<PK(0)>>)>>), Thresh(2, <<Thresh(1, <<Hash(0), O
          Thresh(1, <<OpTh, Thresh(2, <<PK(1), Thresh(1, <<Hash(1)>>)>>)>>), Thresh(1, <<Above(H0 + 1)>>),
          Thresh(0, <<OpTh>>), PK(0), OpTh}
 D3 == {Thresh(n, of) : n \in 0..2, of \in SeqUpTo(Sub3, 2)}
+\* ---- "num": every numeric parameter of every policy kind at the extremes of its machine type ----
+\* (the value classes BIG and NEG of Policy.tla; 0, 1, 255, 256, len, len+1 are ordinary numbers)
+NumLocks == {0, H0 - 1, H0, H0 + 1, BIG}                       \* above(h), uc timelock
+NumTimes == {NEG, 0, T0 - 1, T0, T0 + 1, BIG}                  \* after(t)
+NumCounts(n) == {0, 1, n, n + 1, 255, 256, BIG}                \* uc signatures required, n = number of listed keys
+NumNs(len)   == {0, 1, len, len + 1, 255}                      \* thresh n (a uint8)
+NumLeaves == {Above(h) : h \in NumLocks} \cup {After(t) : t \in NumTimes}
+\* key lists of length 0, 1, many; with duplicates; ed25519 / unknown algorithm / entropy
+\* (Wide = 1: every key list up to length 3, every child list up to length 3)
+NumKeyLists == IF Wide = 1 THEN SeqUpTo(KeyAlphabet, 3) ELSE
+               {<<>>, <<Key(0, 0)>>, <<Key(2, 0)>>, <<Key(1, 0)>>,
+                <<Key(0, 0), Key(0, 0)>>, <<Key(0, 0), Key(0, 1)>>,
+                <<Key(0, 0), Key(0, 1), Key(0, 0)>>, <<Key(0, 0), Key(2, 0), Key(0, 1)>>,
+                <<Key(0, 0), Key(0, 0), Key(0, 0)>>, <<Key(0, 1), Key(1, 0), Key(0, 0)>>}
+NumUCs == UNION {{UC(lock, ks, m) : lock \in NumLocks, m \in NumCounts(Len(ks))} : ks \in NumKeyLists}
+OpAfBig == Opaque(Addr(After(BIG)))
+NumSub == {Above(0), Above(BIG), After(NEG), After(BIG), PK(0), OpPK1}
+NumLists == SeqUpTo(NumSub, IF Wide = 1 THEN 3 ELSE 2) \cup {<<PK(0), Above(0), After(NEG)>>, <<Above(BIG), PK(0), OpPK1>>,
+                                     <<OpAfBig, After(BIG), PK(0)>>, <<PK(0), PK(0), PK(0)>>}
+NumTh == UNION {{Thresh(n, of) : n \in NumNs(Len(of))} : of \in NumLists}
+NumNest == {Thresh(1, <<Thresh(1, <<Above(BIG)>>)>>), Thresh(2, <<Thresh(1, <<After(NEG)>>), Thresh(0, <<>>)>>),
+            Thresh(1, <<Thresh(255, <<PK(0)>>)>>), Thresh(1, <<Thresh(2, <<Above(0), After(NEG)>>), OpAfBig>>),
+            Thresh(1, <<UC(BIG, <<>>, BIG)>>), Thresh(2, <<Thresh(1, <<PK(0), Opaque(Addr(UC(0, <<Key(0, 0)>>, BIG)))>>), After(BIG)>>)}
+Num == NumLeaves \cup NumUCs \cup NumTh \cup NumNest
+\* the model stays strictly inside the classes (see Policy.tla)
+ASSUME /\ \A i \in DOMAIN Ctxs : BIG > Ctxs[i].h + 1 /\ BIG > Ctxs[i].t + 1 /\ NEG < Ctxs[i].t - 1 /\ Ctxs[i].t > 1 /\ Ctxs[i].h > 1
+       /\ BIG > MaxPolicies /\ BIG > MaxWidth + 1 /\ BIG > MaxSigs + 1 /\ BIG > MaxPres + 1 /\ BIG > UCLen + 1
+       /\ BIG > 256 /\ Len(BigU64) = 5 /\ Len(BigI64) = 5 /\ Len(NegI64) = 5
+
 PolSet == CASE Fam = "leaf" -> Leaves
+            [] Fam = "num"  -> Num
             [] Fam = "uc"   -> UCs
             [] Fam = "d1"   -> D1
             [] Fam = "d2"   -> D2
@@ -111,7 +141,8 @@ Line(k) ==
 
 VARIABLES chunk, pos, agree
 Init == /\ chunk = 0 /\ pos = 0 /\ agree = TRUE
-        /\ PrintT("@@WIT " \o ToJson([sigs |-> SigSeqs, pres |-> PreSeqs, ctxs |-> Ctxs, npols |-> NPols, nitems |-> NItems]))
+        /\ PrintT("@@WIT " \o ToJson([sigs |-> SigSeqs, pres |-> PreSeqs, ctxs |-> Ctxs, npols |-> NPols, nitems |-> NItems,
+                                      bigu |-> BigU64, bigt |-> BigI64, negt |-> NegI64]))
 Next == \/ /\ chunk = 0
            /\ chunk' \in 1..NChunks
            /\ pos' = (chunk' - 1) * ChunkSize + 1
